@@ -437,7 +437,7 @@ PROPS = {
             "A-JSON-RECORD rows and params dicts are records with the declared key vocabulary; a dict literal is an instance of the record class the unit is declared to return",
             "A-YIELD Event.wait is the only modelled yield point of save(): on resumption the entity whose _saving is this event has an id, and ids once assigned never change (rely condition; the first-saver path is proved to establish it); other interference during `await` is not modelled",
             "loading contexts: load_port / load_workflow / load_deployment are functions of the persistent id (spec functions loaded_*); Combinator.save / Combinator.load are assumed functions (saved_combinator / loaded_combinator); Workflow.create_port returns a fresh registered port",
-            "A-GATHER-SEQ asyncio.gather over create_task(...) is modelled as running the tasks one after the other in list order (interleavings at the tasks' await points are not modelled); Token.save's summary in contracts/C08_tokens.py (returns with an id; ids stable) is an extern there and proved in contracts/C08.py only for the id part",
+            "A-GATHER-SEQ asyncio.gather over create_task(...) is modelled as running the tasks one after the other in list order (interleavings at the tasks' await points are not modelled); Token.save's summary in contracts/C08_tokens.py (returns with an id; ids stable) is an extern there: contracts/C08.py proves id stability and 'the first saver returns normally only with an id'; that a caller which found a save in flight also resumes with an id is ASSUMED (false only if that other save failed, in which case the workflow fails through its exception)",
             "`{} | d` is d (A-NOALIAS); Token._load / Port._load / <Step>._load are verified with cls = the class itself",
             "TransferStep / InputInjectorStep store the id the job port has NOW: the round-trip lemmas assume the port has been saved (Workflow.save saves ports before steps; that call order is not under contract)",
         ],
